@@ -13,7 +13,7 @@ COMMON_ASSUMPTIONS = [
 
 class Spec:
     def __init__(self, pid, jobs, tags=None, memsafe=False, level='model_checking', explanation='', bounds=None, assumptions=None,
-                 quick_validate=4, compile_failure_is_violation=False, custom=None, engine='ll2c+cbmc', level_text=None, level_note=None, technique=None):
+                 quick_validate=6, compile_failure_is_violation=False, custom=None, engine='ll2c+cbmc', level_text=None, level_note=None, technique=None):
         self.pid = pid; self.jobs = jobs; self.tags = tags or [pid]; self.memsafe = memsafe; self.level = level
         self.explanation = explanation; self._bounds = bounds; self.assumptions = assumptions or []
         self.quick_validate = quick_validate; self.compile_failure_is_violation = compile_failure_is_violation; self.custom = custom
